@@ -3,7 +3,8 @@
     of Gen/C16_Fields.v), Model/C16_Heap.v (copy / deepcopy), Model/C16_Codec.v (VCF import, data-frame codecs). *)
 From Coq Require Import String PrimFloat Permutation Sorted.
 From PV Require Import Lib.Common Lib.FloatK Lib.C16_Spec Model.C16_Store Model.C16_Heap Model.C16_Codec Gen.C16_Fields
-                       Proofs.C16_Utf8 Proofs.C16_Store Proofs.C16_Nested Proofs.C16_Tables Proofs.C16_Heap Proofs.C16_Codec.
+                       Gen.C16_Kernel Model.C16_Kernel Model.C16_Maps Proofs.C16_Maps
+                       Proofs.C16_Utf8 Proofs.C16_Store Proofs.C16_Nested Proofs.C16_Tables Proofs.C16_Heap Proofs.C16_Alias Proofs.C16_Codec Proofs.C16_Kernel.
 Local Open Scope Z_scope.
 
 (** ** labels: every string of unicode scalar values survives the UTF-8 storage of HDF5 (non-ASCII labels included) *)
@@ -243,6 +244,118 @@ Theorem C16_codec_roundtrip_absent_labels_refuted : exists m', cm_from_pandas fa
 Proof. exact cm_pandas_invents_taxa. Qed.
 Print Assumptions C16_codec_roundtrip_absent_labels_refuted.
 
+(** ** the kernel expressions of the CURRENT source (Gen/C16_Kernel.v is regenerated from pybrops/core/util/h5py.py, the 18
+    to_hdf5 / from_hdf5 bodies, the genetic-map classes and the variance-matrix codec on every run).  [write_dict_k],
+    [to_hdf5_k], [raw_member_k], [gmap_to_cM_k], [gmap_from_cM_k], [vm_to_pandas_k] (Model/C16_Kernel.v) are the code written with
+    the generated field-name, delete-condition, recursive-call, group-name, decode, unit-conversion and column/index
+    definitions; they ARE the hand model.  A changed expression in the source breaks this theorem. *)
+Theorem C16_kernel_is_model :
+  (forall l f g ow, write_dict_k f g l ow = write_dict VCur f g l ow)
+  /\ (forall s f g o ow, to_hdf5_k s f g o ow = to_hdf5 VCur s f g o ow)
+  /\ (forall g, norm_group_k g = norm_group g)
+  /\ (forall d, raw_member_k d = raw_member true d)
+  /\ (forall ext x, gmap_to_cM_k ext x = PrimFloat.mul hundred x) /\ (forall ext x, gmap_from_cM_k ext x = PrimFloat.mul centi x)
+  /\ (units_of_k "M" = Some UM /\ units_of_k "Morgans" = Some UM /\ units_of_k "cM" = Some UcM /\ units_of_k "centiMorgans" = Some UcM
+      /\ k_gmap_units_M = ["M"; "Morgans"]%string /\ k_gmap_units_cM = ["cM"; "centiMorgans"]%string)
+  /\ (forall grp_cols m, vm_to_pandas_k grp_cols m = vm_to_pandas grp_cols m)
+  /\ k_vm_from_axes = ["female_col"; "male_col"; "trait_col"]%string.
+Proof.
+  split; [exact write_dict_k_model|]. split; [exact to_hdf5_k_model|]. split; [exact norm_group_k_model|]. split; [exact raw_member_k_model|].
+  split; [exact gmap_to_cM_k_model|]. split; [exact gmap_from_cM_k_model|]. split; [exact units_of_k_model|].
+  split; [exact vm_to_pandas_k_model | exact k_vm_from_axes_model].
+Qed.
+Print Assumptions C16_kernel_is_model.
+
+(** the HDF5 round trip and "the last object written is the one read back", about the writer as the source has it now *)
+Theorem C16_kernel_roundtrip_hdf5 : forall (s : cls_spec), In s persistable ->
+  forall (o : obj) (nt : Z) (f f' : file) (g : option str), parents_ok f ->
+  wf_obj s o = true -> to_hdf5_k s f g o true = (f', None) -> from_hdf5 s nt f' g = construct s nt (proj_rd s o).
+Proof. exact kernel_roundtrip. Qed.
+Print Assumptions C16_kernel_roundtrip_hdf5.
+
+Theorem C16_kernel_read_after_writes : forall (s : cls_spec), In s persistable ->
+  forall (os : list obj) (o : obj) (f f' : file) (g : option str) (nt : Z), parents_ok f ->
+  wf_obj s o = true -> write_all_k s f g (os ++ [o]) = (f', None) -> from_hdf5 s nt f' g = construct s nt (proj_rd s o).
+Proof. exact kernel_read_after_writes. Qed.
+Print Assumptions C16_kernel_read_after_writes.
+
+(** genetic maps: the exported genetic-position column is the generated conversion of every position, and the constructor
+    receives the generated back-conversion of every cell of the column handed in (both map classes) *)
+Theorem C16_kernel_gmap_columns : forall ext g,
+  col_of (CS (zs "cM")) (gmap_to_pandas ext UcM g) = Some (map CF (map (gmap_to_cM_k ext) (g_gen g)))
+  /\ col_of (CS (zs "cM")) (gmap_to_pandas ext UM g) = Some (map CF (g_gen g))
+  /\ forall wn wf ag t r, gmap_from_pandas ext UcM wn wf ag t = Some r ->
+       exists c fl g0, col_of (CS (zs "cM")) t = Some c /\ opt_all (map as_float c) = Some fl
+                       /\ g_gen g0 = map (gmap_from_cM_k ext) fl /\ r = gmap_construct ag g0.
+Proof. intros ext g. destruct (gmap_to_pandas_k ext g) as [A B]. split; [exact A|]. split; [exact B|]. intros wn wf ag t r. apply gmap_from_pandas_k. Qed.
+Print Assumptions C16_kernel_gmap_columns.
+
+(** the centiMorgan round trip with the conversions of the current source: refuted in general, exact on the grid k/256 (k <= 1024) *)
+Theorem C16_kernel_gmap_cM_refuted : forall ext, exists x : float, PrimFloat.eqb (gmap_from_cM_k ext (gmap_to_cM_k ext x)) x = false.
+Proof. exact kernel_cM_roundtrip_fails. Qed.
+Print Assumptions C16_kernel_gmap_cM_refuted.
+Theorem C16_kernel_gmap_cM_partial : forall ext,
+  forallb (fun k => feqb (gmap_from_cM_k ext (gmap_to_cM_k ext (grid256 k))) (grid256 k)) (seq 0 1025) = true.
+Proof. exact kernel_cM_roundtrip_grid. Qed.
+Print Assumptions C16_kernel_gmap_cM_partial.
+
+(** ** genetic maps: constructor settings, default arguments, egmap files (Model/C16_Maps.v; which arguments, defaults and column
+    names the source uses is regenerated into Gen/C16_Kernel.v on every run) *)
+(** StandardGeneticMap keeps the interpolation kind and fill value it is constructed with *)
+Theorem C16_gmap_ctor_keeps_spline_settings : forall k a, ctor_kind false k a = k /\ ctor_fill false k a = k.
+Proof. exact sgm_ctor_keeps. Qed.
+Print Assumptions C16_gmap_ctor_keeps_spline_settings.
+(** ExtendedGeneticMap does not: whenever it builds its spline it falls back to the defaults of build_spline, so reading a map
+    back with spline_kind equal to the source's does not reproduce that parameter *)
+Theorem C16_codec_roundtrip_egmap_spline_kind_refuted : exists k, ctor_kind true k true <> k /\ ctor_kind true k true = zs "linear".
+Proof. exact egm_ctor_drops_kind. Qed.
+Print Assumptions C16_codec_roundtrip_egmap_spline_kind_refuted.
+Theorem C16_codec_roundtrip_egmap_spline_kind_partial : forall k a, a = false \/ k = zs k_egmap_build_default_kind -> ctor_kind true k a = k.
+Proof. exact egm_ctor_partial. Qed.
+Print Assumptions C16_codec_roundtrip_egmap_spline_kind_partial.
+
+(** to_pandas() followed by from_pandas(), both with their default arguments: the writer's default unit is the centiMorgan, the
+    reader's the Morgan - positions come back multiplied by 100 *)
+Theorem C16_codec_roundtrip_gmap_defaults_refuted :
+  exists ut uf g' m, default_units_to false = Some ut /\ default_units_from false = Some uf
+    /\ gmap_from_pandas false uf false false true (gmap_to_pandas false ut w_map) = Some (g', m)
+    /\ fl_eqb (g_gen g') (g_gen w_map) = false /\ fl_eqb (g_gen g') [0%float; 50%float; 100%float] = true.
+Proof. exact default_roundtrip_scales. Qed.
+Print Assumptions C16_codec_roundtrip_gmap_defaults_refuted.
+
+(** to_egmap followed by from_egmap loses marker names and function codes (the reader looks for header names the writer never
+    produces); everything else survives, and a map without names and codes survives entirely *)
+Theorem C16_codec_roundtrip_egmap_names_refuted :
+  (exists g', egmap_from false (egmap_to w_eg) = Some (g', None)
+              /\ g_name w_eg = Some [[97]; [98]] /\ g_name g' = None /\ g_fn g' = None
+              /\ g_chr g' = g_chr w_eg /\ g_pos g' = g_pos w_eg /\ g_stop g' = g_stop w_eg /\ fl_eqb (g_gen g') (g_gen w_eg) = true)
+  /\ forallb (fun nm => negb (existsb (String.eqb nm) k_egmap_file_header)) k_egmap_file_optional = true.
+Proof. split; [exact egmap_names_lost | exact egmap_header_mismatch]. Qed.
+Print Assumptions C16_codec_roundtrip_egmap_names_refuted.
+Theorem C16_codec_roundtrip_egmap_partial : forall (g : gmap) (auto_group : bool) s, g_stop g = Some s -> g_name g = None -> g_fn g = None ->
+  egmap_from auto_group (egmap_to g) = Some (gmap_construct auto_group g).
+Proof. exact egmap_roundtrip_partial. Qed.
+Print Assumptions C16_codec_roundtrip_egmap_partial.
+
+(** the table readers address a column by name or by position: in every such conditional of the current source the three
+    occurrences are the same argument, and the genetic-map readers assign it to the field it is named after (finite domain:
+    the rows of this run's table, at least the 16 of StandardGeneticMap, ExtendedGeneticMap, DenseCoancestryMatrix,
+    DenseBreedingValueMatrix) *)
+Theorem C16_kernel_column_selection : forallb col_row_ok k_col_select = true /\ (16 <= length k_col_select)%nat.
+Proof. exact col_select_ok. Qed.
+Print Assumptions C16_kernel_column_selection.
+
+(** ** aliasing freedom at the top level, for shallow and deep copies alike: every attribute that __copy__ / __deepcopy__ passes
+    through copy.copy / copy.deepcopy is None, an immediate, or a cell allocated by the copy - hence never the cell an attribute
+    of the source refers to (a shallow copy may share the contents of containers, not the containers) *)
+Theorem C16_copy_toplevel_fresh : forall specs fuel deep s h o h' o', class_copy specs fuel deep s h o = Some (h', o') ->
+  Forall2 (copied_fresh (length h)) (filter (fun c => negb (String.eqb (csrc c) "")) (if deep then dp_ctor s ++ dp_post s else cp_ctor s ++ cp_post s)) o'.
+Proof. exact class_copy_toplevel_fresh. Qed.
+Print Assumptions C16_copy_toplevel_fresh.
+Theorem C16_copy_fresh_not_shared : forall n v w, hv_lt n v -> hv_ge n w -> same_ref v w = false.
+Proof. exact fresh_not_same. Qed.
+Print Assumptions C16_copy_fresh_not_shared.
+
 (** non-vacuity: concrete objects meet the hypotheses; the write succeeds; a variance matrix with sorted labels does round-trip *)
 Example C16_hyps_satisfiable :
   (wf_obj spec_ALGM (w_model w_hyper) = true /\ In spec_ALGM persistable /\ Forall (fun kv => snd kv <> None) w_hyper /\ parents_ok []
@@ -250,9 +363,16 @@ Example C16_hyps_satisfiable :
   /\ wf_obj spec_GM w_rich = true /\ wf_obj spec_GM w_poor = true /\ In spec_GM flat_classes
   /\ (exists f2, write_all VCur spec_GM [] w_group [w_rich; w_poor] = (f2, None))
   /\ opt_eqb vm_eqb (vm_from_pandas true (vm_to_pandas true w_vm_sorted)) (Some w_vm_sorted) = true
-  /\ (exists h' o', class_copy [spec_ALGM] 4 true spec_BV [CArr (VArr TF64 [1; 1] [0])] [("mat"%string, HRef 0%nat)] = Some (h', o')).
+  /\ (exists h' o', class_copy [spec_ALGM] 4 true spec_BV [CArr (VArr TF64 [1; 1] [0])] [("mat"%string, HRef 0%nat)] = Some (h', o'))
+  /\ (exists f', write_all_k spec_ALGM [] (Some [109]) [w_model [([120], Some (VInt 1))]; w_model w_hyper] = (f', None))
+  /\ opt_eqb vm_eqb (vm_from_pandas true (vm_to_pandas_k true w_vm_sorted)) (Some w_vm_sorted) = true
+  /\ (exists g s0, g_stop g = Some s0 /\ g_name g = None /\ g_fn g = None /\ g_chr g <> [])
+  /\ (exists k, k = zs k_egmap_build_default_kind /\ ctor_kind true k true = k).
 Proof.
   split; [destruct w_model_wf as [A [B [C D]]]; split; [exact A|]; split; [exact B|]; split; [exact C|]; split; [exact parents_nil | exact D]|].
   destruct w_objs_wf as [A [B C]]. split; [exact A|]. split; [exact B|]. split; [exact C|].
-  split; [eexists; vm_compute; reflexivity|]. split; [exact vm_pandas_sorted_ok|]. eexists. eexists. vm_compute. reflexivity.
+  split; [eexists; vm_compute; reflexivity|]. split; [exact vm_pandas_sorted_ok|]. split; [eexists; eexists; vm_compute; reflexivity|].
+  split; [eexists; vm_compute; reflexivity|]. split; [exact vm_pandas_sorted_ok_k|].
+  split; [exists (mkG [1] [10] (Some [11]) [0%float] None None), [11]; repeat split; discriminate|].
+  eexists. split; [reflexivity | apply egm_ctor_partial; right; reflexivity].
 Qed.
